@@ -149,8 +149,12 @@ def closed_roman_numeral_roots():
         kstep = k[0].upper()
         kalt = {"": 0, "#": 1, "b": -1}[k[1:]]
         minor = k[0].islower()
-        for deg in ["I", "ii", "iii", "IV", "V", "vi", "i", "iv", "v", "VI", "III", "VII", "V7", "ii6", "V65", "I64"]:
-            base = deg.rstrip("0123456789")
+        for deg in ["I", "ii", "iii", "IV", "V", "vi", "i", "iv", "v", "VI", "III", "VII", "V7", "ii6", "V65", "I64",
+                    # first inversions of every chord quality on lower- and upper-case degrees (the third above the root is minor on a lower-case degree)
+                    "ii%65", "vii%65", "viio6", "viio65", "ii65", "iv6", "vi6", "V6", "IV6", "I6", "i6", "ii%6", "V2", "V43"]:
+            import re as _re
+            base = _re.match(r"[ivIV]+", deg).group(0)
+            figures = _re.sub(r"^[ivIV]+[o%+]?", "", deg)
             tab = sc.Roman2Interval_Min if minor else sc.Roman2Interval_Maj
             if base not in tab:
                 continue
@@ -177,7 +181,9 @@ def closed_roman_numeral_roots():
             if root != want:
                 return False, n, {"input": [k, deg], "what": "root %r, diatonic arithmetic gives %r" % (root, want)}
             rn.root = root
-            inv = {"6": 1, "65": 1, "64": 2, "43": 2, "2": 3, "42": 3}.get(deg[len(base):], 0)
+            inv = {"6": 1, "65": 1, "64": 2, "43": 2, "2": 3, "42": 3}.get(figures, 0)
+            if inv > 1 and deg[len(base):len(base) + 1] in ("o", "%", "+"):
+                continue  # which fifth / seventh a diminished or augmented chord has is the harmony vocabulary's business
             if inv:
                 ivb = {1: (3, "m" if base.islower() else "M"), 2: (5, "P"), 3: (7, "m")}[inv]
                 bst, bal, _ = S.diatonic_transpose(st, al, 4, ivb[0], ivb[1], "up")
